@@ -289,6 +289,10 @@ fn fill(rep: &mut Report, v: &Value) {
         cmp_seq(rep, "fill", &key("fill"), "Vec<f64>", catch(|| drain(vf.titer().fill(7.0))), &opt_exps(v, "fill7"), v);
         cmp_seq(rep, "fill", &key("fill"), "Vec<Option<f64>>", catch(|| drain(vo.titer().fill(Some(7.0)))), &opt_exps(v, "fill7"), v);
         cmp_seq(rep, "fill_mask", &key("fill_mask"), "Vec<f64>", catch(|| drain(vf.titer().fill_mask(zero, 7.0))), &opt_exps(v, "fill0"), v);
+        cmp_seq(rep, "drop_none", &key("drop_none"), "Vec<f64>", catch(|| drain(vf.titer().drop_none())), &opt_exps(v, "dropped"), v);
+        cmp_seq(rep, "drop_none", &key("drop_none"), "Vec<Option<f64>>", catch(|| drain(vo.titer().drop_none())), &opt_exps(v, "dropped"), v);
+        let voi: Vec<Option<i32>> = enc_vec(&s);
+        cmp_seq(rep, "drop_none", &key("drop_none"), "Vec<Option<i32>> (owned)", catch(|| drain(voi.clone().into_iter().drop_none())), &opt_exps(v, "dropped"), v);
         cmp_seq(rep, "vabs", &key("vabs"), "Vec<f64>", catch(|| drain(vf.titer().map(|x| -x).vabs())), &opt_exps(v, "abs"), v);
         cmp_seq(rep, "vabs", &key("vabs"), "Vec<Option<f64>>", catch(|| drain(vo.titer().map(|x| x.map(|y| -y)).vabs())), &opt_exps(v, "abs"), v);
         if !has_null(&s) {
